@@ -87,6 +87,8 @@ def mutators():
         return t
 
     def phantom_timeout(t):
+        if not t[-1]["decided"]:      # (the count is only compared for a member that ran to its decision)
+            return None
         t[0]["timeouts"] += 1
         return t
 
